@@ -51,6 +51,15 @@ def install_patches():
             autoray.register_function("qsym", fn, impl)
     except Exception:
         pass
+    # numpy refuses matrix_power on stacks of object arrays: do it slice by slice
+    _mp = np.linalg.matrix_power
+    if not getattr(_mp, "_qsym", False):
+        def matrix_power(a, n):
+            if isinstance(a, np.ndarray) and a.dtype == object and a.ndim == 3:
+                return np.stack([_mp(a[i], n) for i in range(a.shape[0])])
+            return _mp(a, n)
+        matrix_power._qsym = True
+        np.linalg.matrix_power = matrix_power
     _PATCHED = True
 
 
@@ -164,7 +173,7 @@ def _name(op):
     return type(op).__name__
 
 
-def op_matrix_sym(op, depth=0):
+def op_matrix_sym(op, depth=0, strict=False):
     """exact matrix of `op` in the order of op.wires (work wires of Controlled excluded, as PennyLane does).
     Raises NotExtractable."""
     install_patches()
@@ -196,6 +205,8 @@ def op_matrix_sym(op, depth=0):
     except Exception as e:                         # PennyLane code not polymorphic here
         errs.append(f"matrix(): {type(e).__name__}: {str(e)[:120]}")
     # 2. structural fall-backs
+    if strict:
+        raise NotExtractable(f"{op.name} (strict): " + " | ".join(errs)[:300])
     try:
         if isinstance(op, Adjoint):
             return s_adj(op_matrix_sym(op.base, depth + 1))
